@@ -242,3 +242,9 @@ mut("c18e-vacant-only-with-data", "C18", "yrs/src/sync/awareness.rs", "         
     "                    let has_data = new.is_some();\n                    if has_data {\n                        e.insert(ClientState::new(clock, now, new));", "C18.e")
 mut("c19f-mask-copy-paste", "C19", "yffi/src/lib.rs", "        let cleanup_formatting = self.flags & Y_CLEANUP_FMT != 0;", "        let cleanup_formatting = self.flags & Y_SHOULD_LOAD != 0;", "C19.f")
 mut("c20b-links-taken", "C20", S, "                if let Some(source) = links.clone() {", "                if let Some(source) = links.take() {", "C20.b")
+# ---------------------------------------------------------------- R-PRED
+mut("pred-is-missing-ignores-skips", "C02", BS, "        id.clock >= self.get_clock(&id.client) || self.skips.contains(id)", "        id.clock >= self.get_clock(&id.client)", "C02.p", also=["C01"])
+mut("pred-is-visible-off-by-one", "C13", "yrs/src/state_vector.rs", "        self.state_map.get(&id.client) > id.clock && !self.delete_set.contains(id)", "        self.state_map.get(&id.client) >= id.clock && !self.delete_set.contains(id)", "C13.p", also=["C17"])
+mut("pred-detect-conflict-no-right-left", "C01", B, "            (None, Some(right)) => right.left.is_some(), // !target.left && target.right.left !== null", "            (None, Some(_right)) => false,", "C01.p", also=["C04"])
+mut("pred-benign-detect-conflict-if-chain", "C01", B, "        match (&self.left, &self.right) {\n            (None, None) => true,                        // !target.left && !target.right\n            (None, Some(right)) => right.left.is_some(), // !target.left && target.right.left !== null\n            (Some(left), _) => left.right != self.right, // target.left && target.left.right !== target.right\n        }",
+    "        if let Some(left) = &self.left {\n            left.right != self.right\n        } else if let Some(right) = &self.right {\n            right.left.is_some()\n        } else {\n            true\n        }", "", kind="benign", also=["C04"])
